@@ -22,6 +22,12 @@ def run(ctx):
         fams["multi"] = fams.get("multi", 0) + len(rs)
         recs += rs
     pl = langfam.Pipeline(ctx, "c05")
+    # services: scripts of single calls (SvcCall.tla) executed through the generated client stubs, handler dispatch, typed
+    # channels and subservice chain of every schema of family svc
+    from vlib import svcfam
+    sr, sfiles = svcfam.scripts(ctx)
+    states += sr.distinct
+    pl.svc_scripts = (sfiles[0], 240 if ctx.quick() else 3000, ctx.seed)
     pl.add(recs)
     pl.compile_all()
     pl.go_build(drive=True)
@@ -46,8 +52,11 @@ def run(ctx):
             ctx.violation(f["sig"], f["detail"], dict(slim(c), finding=f))
     if (driven == 0 or summary["checks"] == 0) and not ctx.violations:     # with violations the run is not vacuous, it failed
         raise Broken("vacuous: nothing driven")
+    if summary.get("svc_cases", 0) == 0 and not ctx.violations:
+        raise Broken("vacuous: no generated service was executed")
     ctx.coverage = {
         "states": states, "transitions": states, "traces_validated_against_impl": driven, "value_checks": summary["checks"],
+        "services_executed": {"schemas": summary.get("svc_cases", 0), "scripts_per_schema": summary.get("svc_scripts", 0), "model": "SvcCall.tla"},
         "schemas_by_family": fams, "samples": [c["rec"]["label"] for c in pl.cases[:2] + pl.cases[-2:]],
         "explanation": "Schemas: every field type of the pool (15 scalars, any, message, local enum/struct/nested struct/message, lists of "
                        "scalars, bytes, strings, enums, structs and messages, imported enum/struct/message and lists of them) as the single "
@@ -59,7 +68,8 @@ def run(ctx):
                        "nested messages, lists and structs are compared recursively; struct Encode/Decode inverse and equal to the specification's "
                        "bytes (also behind a prefix); enum constants, String, codecs and int32 wire type; regenerating gives identical files.",
     }
-    ctx.assumptions = ["generated RPC code (services, clients) is compiled, not executed, by this check",
+    ctx.assumptions = ["the service of family svc has one method per method shape of the language; its Go implementation in the harness is written against "
+                       "the generated interfaces by hand (lgenrt/svc.go.tmpl) and fails to compile if they differ from the schema",
                        "names are taken from a table whose Go identifiers are distinct (the statement's precondition)"]
 
 
